@@ -155,3 +155,12 @@ package json
 //@ nosafety
 //@ ensures template: typeis(old(e.src), ptr(stringVal)) && ctx != nil ==> tmplParses == old(tmplParses) + 1
 //@ ensures verbatim: typeis(old(e.src), ptr(stringVal)) && ctx == nil ==> ret0 == strVal(old(unbox(e.src, ptr(stringVal)).Value)) && len(ret1) == 0
+
+// ---- variables of JSON expressions (unit U16b, C07) ----
+// verif:unit U16b props=C07
+// Value() evaluates every string as a template (see above); Variables() must therefore look for
+// references in every string the same way: the content goes through the native template parser
+// exactly once, whatever it contains.
+// verif:func (*expression).Variables
+//@ nosafety
+//@ ensures template: typeis(old(e.src), ptr(stringVal)) ==> tmplParses == old(tmplParses) + 1
